@@ -178,6 +178,7 @@ type env struct {
 	n    *int
 	hv   string // buffer methods: current heap variable
 	bv   string // buffer methods: current header variable of the receiver's buffer
+	lv   string // transfer functions: current value of the caller's slice that is written
 }
 
 func (e env) clone() env {
@@ -185,7 +186,7 @@ func (e env) clone() env {
 	for k, v := range e.vars {
 		m[k] = v
 	}
-	return env{m, e.n, e.hv, e.bv}
+	return env{m, e.n, e.hv, e.bv, e.lv}
 }
 
 func (e env) fresh(base string) string {
@@ -405,6 +406,12 @@ func (b *body) convert(to ty, a string, from ty, bs *binds, en env) (string, ty)
 		b.option = true
 		return n, to
 	}
+	if from.c == cMixed && to.c == cMixed && from.lean != "" && to.lean != "" && b.bm != nil && b.bm.res {
+		// D(x) between two element-type parameters: the model's value conversion between cells
+		n := en.fresh("t")
+		*bs = append(*bs, fmt.Sprintf("(Res.ofUnspec (cvt %s %s %s)).bind fun _ %s =>", from.lean, to.lean, a, n))
+		return n, to
+	}
 	fail("conversion from %s to %s", from.key, to.key)
 	return "", to
 }
@@ -550,6 +557,9 @@ func (b *body) stmts(list []ast.Stmt, rest [][]ast.Stmt, en env, ind string) str
 			}
 			return ind + "RET(" + *b.cc.stored + ")"
 		}
+		if b.bm != nil && b.bm.inFor > 0 {
+			return ind + fmt.Sprintf("Res.ok %s (%s, %s)", en.hv, en.bv, en.lv)
+		}
 		if b.bm != nil && b.bm.res && b.bm.void {
 			return ind + fmt.Sprintf("Res.ok %s (%s, ())", en.hv, en.bv)
 		}
@@ -636,6 +646,9 @@ func (b *body) stmts(list []ast.Stmt, rest [][]ast.Stmt, en env, ind string) str
 			if obj == nil {
 				obj = t.info.Uses[id]
 			}
+			if b.bm != nil && b.bm.inFor > 0 && b.bm.outer[obj] {
+				fail("the loop body assigns %s, declared outside the loop", id.Name)
+			}
 			var v string
 			switch {
 			case x.Tok == token.DEFINE || x.Tok == token.ASSIGN:
@@ -675,6 +688,9 @@ func (b *body) stmts(list []ast.Stmt, rest [][]ast.Stmt, en env, ind string) str
 			fail("++/-- on a non-variable")
 		}
 		obj := t.info.Uses[id]
+		if b.bm != nil && b.bm.inFor > 0 && b.bm.outer[obj] {
+			fail("the loop body assigns %s, declared outside the loop", id.Name)
+		}
 		cur, ok := en.vars[obj]
 		if !ok {
 			fail("++/-- on an untranslated variable")
@@ -1260,6 +1276,22 @@ func main() {
 		}
 		return true
 	}
+	isXfer := func(fd *ast.FuncDecl) bool {
+		sig := info.Defs[fd.Name].Type().(*types.Signature)
+		if sig.Recv() != nil {
+			return false
+		}
+		nb, ns := 0, 0
+		for i := 0; i < sig.Params().Len(); i++ {
+			if isBufferPtr(sig.Params().At(i).Type()) {
+				nb++
+			}
+			if isSliceOfParam(sig.Params().At(i).Type()) {
+				ns++
+			}
+		}
+		return nb == 1 && ns >= 1
+	}
 	for _, fd := range all {
 		obj := info.Defs[fd.Name]
 		if isConv(fd) {
@@ -1275,11 +1307,20 @@ func main() {
 			t.bufMethod(fd)
 			continue
 		}
+		if isXfer(fd) {
+			continue
+		}
 		if owner, ok := bufName(obj); ok && (owner == "Buffer" || owner == "C" || (owner == "PoolAllocator" && fd.Name.Name == "Put")) {
 			t.bufMethod(fd)
 			continue
 		}
 		t.scalarFunc(fd)
+	}
+	// transfer functions (Write, Read) after the buffer methods they call
+	for _, fd := range all {
+		if isXfer(fd) {
+			t.xferFunc(fd)
+		}
 	}
 	for _, fd := range all {
 		obj := info.Defs[fd.Name]
@@ -1307,17 +1348,21 @@ func main() {
 		switch {
 		case strings.HasSuffix(short, "_k"):
 			return "Kernels"
+		case t.shape[n] == "xfer":
+			return "Xfer"
 		case strings.HasPrefix(short, "Buffer_") || strings.HasPrefix(short, "C_") || strings.HasPrefix(short, "PoolAllocator_") || short == "Alloc":
 			return "Buffer"
 		}
 		return "Scalar"
 	}
 	h := sha256.New()
-	for _, grp := range []string{"Scalar", "Kernels", "Buffer"} {
+	for _, grp := range []string{"Scalar", "Kernels", "Buffer", "Xfer"} {
 		var sb strings.Builder
 		sb.WriteString("/- GENERATED by harness/go2lean from the Go sources of pipelined.dev/signal - do not edit.\n   Regenerated by ./check on every run; the theorems of SignalGen/Eq/*.lean relate these definitions to the model. -/\n")
 		if grp == "Scalar" {
 			sb.WriteString("import SignalGen.Prelude\n")
+		} else if grp == "Xfer" {
+			sb.WriteString("import SignalGen.Gen.Buffer\n")
 		} else {
 			sb.WriteString("import SignalGen.Gen.Scalar\n")
 		}
